@@ -28,30 +28,10 @@ ERR = -3
 EPS = 2.0 ** -52
 MAXSAFE = 2.0 ** 53 - 1
 
-K_EPS = "C09-epsilon-equality"
 K_SHL = "C09-shl-negative-base-overflow"
-K_SHR = "C09-shr-count-range"
-K_BNOT = "C09-bitnot-no-range-check"
 K_FREXP = "C09-frexp-via-log2"
 
 
-
-def _load_known_with_meta(prop, _orig=core.load_known):
-    """known findings of this property: known_findings.json (assembled by tools/mkmanifest.py) plus,
-    until the lead has re-assembled it, the entries of props/c09.meta.json (same format)."""
-    import os
-    out = list(_orig(prop))
-    if prop == "C09":
-        meta = json.load(open(os.path.join(core.VERIF, "props", "c09.meta.json")))
-        have = {e["id"] for e in out}
-        fixed = " ".join(json.load(open(os.path.join(core.VERIF, "known_findings.json"))).get("fixed", []))
-        for e in meta.get("known_findings", []):
-            if e["id"] not in have and e["id"] not in fixed:
-                out.append(dict(e, property="C09", status="known"))
-    return out
-
-
-core.load_known = _load_known_with_meta
 
 bits = core.float_to_bits
 unbits = core.bits_to_float
@@ -287,8 +267,7 @@ def part_a(run, binary, D, model, failures, model_diffs):
         run.note_case(f"~{a}", True)
         spec_bnot, kb = un_s
         if cu[2] != spec_bnot:
-            fail("bitwise not outside the specification", a, "~", None, spec_bnot, cu[2],
-                 known=K_BNOT if (kb == 1 and cu[2] == un_i[2]) else None)
+            fail("bitwise not outside the specification", a, "~", None, spec_bnot, cu[2])
         elif cu[2] != un_i[2]:
             model_diffs.append({"case": f"~{lit(a)}", "model": show(un_i[2]), "code": show(cu[2])})
         for b, row, cb in zip(D, rows, c["bin"]):
@@ -307,13 +286,8 @@ def part_a(run, binary, D, model, failures, model_diffs):
                                             "impl-model (a recorded finding) no longer reproduces"})
                     continue
                 known = None
-                if got == imp:
-                    if k in (9, 10) and rk[0] == 1:
-                        known = K_EPS
-                    elif k == 14 and rk[1] == 1:
-                        known = K_SHL
-                    elif k == 15 and rk[2] == 1:
-                        known = K_SHR
+                if got == imp and k == 14 and rk[1] == 1:
+                    known = K_SHL
                 what = ("non-finite number observable" if nonfinite(got) else
                         "panic" if isinstance(got, str) and got.startswith("P:") else
                         f"operator {OPS[k]} disagrees with the specification")
@@ -334,14 +308,14 @@ def plan_b(run, D):
     thorough = run.tier == "thorough"
     safe_ints = [b for b in D if abs(unbits(b)) <= MAXSAFE and unbits(b) == int(unbits(b))]
     tri = []
-    for _ in range(1500 if thorough else 300):
+    for _ in range(1500 if thorough else 120):
         k1, k2 = rng.choice(NUMERIC_OPS), rng.choice(NUMERIC_OPS)
         pool = safe_ints if (k1 >= 11 and rng.chance(0.8)) else D
         a, b = rng.choice(pool), rng.choice(pool)
         c = rng.choice(safe_ints if (k2 >= 11 and rng.chance(0.7)) else D)
         tri.append((k1, k2, a, b, c))
     lists = []
-    for i in range(400 if thorough else 90):
+    for i in range(400 if thorough else 45):
         n = rng.choice([2, 2, 3, 3, 4, 5, 6, 8, 12])
         if i % 3 == 0:
             cl = rng.choice(CLUSTERS)
@@ -357,8 +331,8 @@ def plan_b(run, D):
     xs = list(D)
     if not thorough:
         rng.shuffle(xs)
-        xs = sorted(xs[:70])
-    pairs = [(rng.choice(xs), rng.choice(xs)) for _ in range(300 if thorough else 60)]
+        xs = sorted(xs[:40])
+    pairs = [(rng.choice(xs), rng.choice(xs)) for _ in range(300 if thorough else 30)]
     pairs += [(bits(0.0), bits(-0.0)), (bits(-0.0), bits(0.0)), (bits(1e-20), bits(2e-20))]
     return {"tri": tri, "lists": lists, "xs": xs, "pairs": pairs}
 
@@ -382,7 +356,7 @@ def part_b(run, binary, D, table, plan, pm, failures, model_diffs):
         failures.append(f)
 
     # ---- B1 literals + rows of non-erroring operators, through the parser and manifest
-    nrows = 120 if thorough else 40
+    nrows = 120 if thorough else 20
     for _ in range(nrows):
         a = rng.choice(D)
         bs = [rng.choice(D) for _ in range(8)]
@@ -419,7 +393,7 @@ def part_b(run, binary, D, table, plan, pm, failures, model_diffs):
     rng.shuffle(errs)
     per_op = {}
     for a, k, b in errs:
-        if per_op.get(k, 0) >= (40 if thorough else 12):
+        if per_op.get(k, 0) >= (40 if thorough else 6):
             continue
         per_op[k] = per_op.get(k, 0) + 1
         code = f"{lit(a)} {OPS[k]} {lit(b)}"
@@ -464,11 +438,8 @@ def part_b(run, binary, D, table, plan, pm, failures, model_diffs):
                 f"[std.setMember(x, std.set(L)) for x in L], "
                 f"[std.setMember(x, S) for x in [{', '.join(lit(q) for q in qs)}]]"
                 + (", [std.minArray(L), std.maxArray(L)]" if l else "") + "]")
-        fl = [unbits(b) for b in l]
-        eps_pair = any(x != y and abs(x - y) <= EPS for x in fl for y in fl)
-
         def j(o, code=code, l=l, sort_i=sort_i, uniq_i=uniq_i, uniq_s=uniq_s, set_i=set_i, set_s=set_s,
-              mn=mn, mx=mx, eps_pair=eps_pair, mem=mem):
+              mn=mn, mx=mx, mem=mem):
             run.note_case(code, len(l) >= 2)
             run.count(f"B:list-len{min(len(l), 9)}")
             if "ok" not in o:
@@ -477,28 +448,25 @@ def part_b(run, binary, D, table, plan, pm, failures, model_diffs):
             v = o["ok"]
             g_sort, g_uniq, g_set = canon_list(v[0]), canon_list(v[1]), canon_list(v[2])
             g_mem, g_q = canon_list(v[3]), canon_list(v[4])
-            zc = lambda xs: [zcanon(x) for x in xs]  # noqa
-            if zc(g_sort) != zc(sort_i):
-                fail("std.sort is not the ascending rearrangement under <", code,
+            # sort is stable (3588344) and uniq keeps the first of a run: bit-exact comparison
+            if g_sort != sort_i:
+                fail("std.sort is not the stable ascending rearrangement under <", code,
                      [show(x) for x in sort_i], [show(x) for x in g_sort])
             if g_uniq != uniq_s:
-                k = K_EPS if (g_uniq == uniq_i and eps_pair) else None
                 fail("std.uniq does not merge exactly the ==-equal neighbours", code,
-                     [show(x) for x in uniq_s], [show(x) for x in g_uniq], known=k)
+                     [show(x) for x in uniq_s], [show(x) for x in g_uniq])
             elif g_uniq != uniq_i:
                 model_diffs.append({"case": code, "model": [show(x) for x in uniq_i],
                                     "code": [show(x) for x in g_uniq]})
-            if zc(g_set) != zc(set_s):
-                k = K_EPS if (zc(g_set) == zc(set_i) and eps_pair) else None
+            if g_set != set_s:
                 fail("std.set is not the strictly ascending list of the distinct elements", code,
-                     [show(x) for x in set_s], [show(x) for x in g_set], known=k)
-            elif zc(g_set) != zc(set_i):
+                     [show(x) for x in set_s], [show(x) for x in g_set])
+            elif g_set != set_i:
                 model_diffs.append({"case": code, "model": [show(x) for x in set_i],
                                     "code": [show(x) for x in g_set]})
             if any(x != -1 for x in g_mem):
-                k = K_EPS if (eps_pair and zc(g_set) == zc(set_i)) else None
                 fail("an element of L is not a std.setMember of std.set(L)", code, "all true",
-                     [show(x) for x in g_mem], known=k)
+                     [show(x) for x in g_mem])
             imp, spec = [p[0] for p in mem], [p[1] for p in mem]
             if g_q != spec:
                 fail("std.setMember disagrees with == membership in a set", code, [show(x) for x in spec],
@@ -606,7 +574,7 @@ def math_cases(run, rng, plan, pm, add, fail, model_diffs):
         add(code, j)
     # -- clamp (std.jsonnet: if x < lo then lo else if x > hi then hi else x)
     small = [bits(v) for v in (0.0, 1.0, 2.0, 5.0, -1.0, 0.5, 1e300, -0.0)]
-    for _ in range(60 if thorough else 16):
+    for _ in range(60 if thorough else 12):
         x, lo, hi = rng.choice(small), rng.choice(small), rng.choice(small)
         fx, flo, fhi = unbits(x), unbits(lo), unbits(hi)
         exp = lo if fx < flo else hi if fx > fhi else x
@@ -665,7 +633,7 @@ def math_cases(run, rng, plan, pm, add, fail, model_diffs):
             add(code, libm_judge(code, name, f(unbits(a))))
     for name, cname in LIBM2.items():
         f = libm_fn(cname, 2)
-        for _ in range(200 if thorough else 50):
+        for _ in range(200 if thorough else 24):
             a, b = rng.choice(xs), rng.choice(xs)
             code = f"std.{name}({lit(a)}, {lit(b)})"
             add(code, libm_judge(code, name, f(unbits(a), unbits(b))))
@@ -675,11 +643,7 @@ def math_cases(run, rng, plan, pm, add, fail, model_diffs):
 def known_witnesses(run, binary, failures):
     """the recorded witnesses of the known findings must still reproduce on the code (a finding
     that silently disappeared means the model is stale) — and they are what KNOWN-FINDING shows"""
-    W = [("[1e-20 == 2e-20, 1e-20 < 2e-20]", [-1, -1], K_EPS),
-         ("[std.setMember(2e-20, std.set([1e-20, 2e-20]))]", [-2], K_EPS),
-         ("[(-2) << 63]", [0], K_SHL),
-         ("[1 >> 9007199254740992]", [bits(1.0)], K_SHR),
-         ("[~1e300]", [bits(-9.223372036854775808e18)], K_BNOT),
+    W = [("[(-2) << 63]", [0], K_SHL),
          ("[std.mantissa(9007199254740991)]", [bits(0.5)], K_FREXP)]
     outs = core.run_harness(binary, "eval", [{"code": c} for c, _, _ in W])
     status = {}
@@ -689,6 +653,23 @@ def known_witnesses(run, binary, failures):
     run.coverage["known_witnesses"] = {k: [{"code": c, "reproduces": ok, "answer": a} for c, ok, a in v]
                                        for k, v in status.items()}
     return status
+
+
+def fixed_regressions(run, binary, failures):
+    """the reproducing inputs of the findings fixed in ce0d2fe / 8b733a9 / 72c2ef4, judged against the spec"""
+    R = [("[1e-20 == 2e-20, 1e-20 != 2e-20, 1e-20 < 2e-20, 0 == 5e-324]", [-2, -1, -1, -2]),
+         ("[std.setMember(2e-20, std.set([1e-20, 2e-20])), std.length(std.uniq([1e-20, 2e-20]))]", [-1, bits(2.0)]),
+         ("1 >> 9007199254740992", ERR), ("1 >> 1e300", ERR), ("~1e300", ERR), ("~9007199254740992", ERR),
+         ("[std.clamp(1, 5, 2)]", [bits(5.0)])]
+    outs = core.run_harness(binary, "eval", [{"code": c} for c, _ in R])
+    for (c, exp), o in zip(R, outs):
+        run.note_case(c, True)
+        run.count("B:fixed-regression")
+        got = canon_list(o["ok"]) if isinstance(o.get("ok"), list) else enc_canon(o)
+        if got != exp:
+            failures.append({"case": {"kind": "jsonnet", "jsonnet": c},
+                             "summary": f"C09 regression of a fixed finding: {c} gives {got}, specification {exp}",
+                             "what": "regression of a fixed finding", "expected": str(exp), "got": str(got)})
 
 
 def check(run, terrs):
@@ -723,11 +704,14 @@ def check(run, terrs):
     if table:
         part_b(run, binary, D, table, plan, pm, failures, model_diffs)
     # every finding still listed as known must still reproduce with its recorded witness
-    still_known = {k["id"] for k in core.load_known("C09")}
+    import os
+    meta = json.load(open(os.path.join(core.VERIF, "props", "c09.meta.json")))
+    still_known = {k["id"] for k in meta.get("known_findings", [])}
     for kid, ws in known_witnesses(run, binary, failures).items():
         if kid in still_known:
             bad = [f"{c} -> {a}" for c, ok, a in ws if not ok]
             run.obligation(f"known-finding {kid} still reproduces", not bad, "; ".join(bad))
+    fixed_regressions(run, binary, failures)
     run.trusted = TRUSTED
     run.assumptions = ASSUMPTIONS
     if len(run.samples) < 3:
@@ -770,8 +754,9 @@ TRUSTED = ["Coq 8.16.1 kernel incl. vm_compute; Flocq 4.1.0 (IEEE754.Binary, Bit
            "correspondence: jrharness numop + eval, vlib generators, Coq term printer/parser",
            "hardware + - * / and Rust's fmod, `as i64`, `as f64` being IEEE/Rust-reference conformant is "
            "sampled by the sweep, not proved",
-           "modelled not verified: pdqsort (sort_unstable_by_key) abstracted as insertion sort under the same "
-           "order; libm functions have no Coq model (explored against the platform libm through ctypes)"]
+           "modelled not verified: the standard library's stable merge sort (sort_by_key) abstracted as a stable "
+           "insertion sort under the same order; libm functions have no Coq model (explored against the platform "
+           "libm through ctypes)"]
 ASSUMPTIONS = ["impl-model transliterates val.rs / evaluate/operator.rs / sort.rs / sets.rs / math.rs numeric paths; "
                "tie = translator (GenNum.v) + differential run on every check",
                "operands are finite doubles (NumValue invariant; theorem hypothesis)"]
